@@ -418,4 +418,50 @@ def rule_d(ctx):
     return r
 
 
-RULES = [rule_a, rule_b, rule_c, rule_d]
+
+def rule_e(ctx):
+    r = RuleResult("C18-e", "indented syntax: whitespace-only lines are insignificant — the tab/space flags checked for the next real line are re-initialised for every "
+                   "line that peek_indentation scans (they describe one line, not everything skipped so far)")
+    from . import loops as _loops
+    prog = ctx.prog()
+    b = prog.one("parse::sass::SassParser::peek_indentation")
+    chk = [c for c in b.calls() if (c.name() or "").endswith("SassParser::check_indentation_consistency")]
+    if len(chk) != 1:
+        raise AnchorMissing("peek_indentation: expected one call of check_indentation_consistency, found %d" % len(chk))
+    nl = _loops.natural_loops(b)
+    n = 0
+    for a in chk[0].args[1:]:
+        if a.place is None or b.local_ty(a.place.local) != "bool":
+            continue
+        L = a.place.local
+        # follow a plain copy to the multi-definition flag
+        defs = b.defs_of(L)
+        if len(defs) == 1 and isinstance(defs[0][2], dict) and defs[0][2]["k"] == "use" and "p" in defs[0][2]["op"]:
+            L = defs[0][2]["op"]["p"]["l"]
+            defs = b.defs_of(L)
+        sets = [bb for bb, i, d in defs if isinstance(d, dict) and d["k"] == "use" and d["op"].get("k") == "const" and Operand(d["op"]).const_value() is True]
+        resets = [bb for bb, i, d in defs if isinstance(d, dict) and d["k"] == "use" and d["op"].get("k") == "const" and Operand(d["op"]).const_value() is False]
+        if not sets:
+            continue
+        n += 1
+        name = b.local_name(L) if hasattr(b, "local_name") else "_%d" % L
+        outer = None
+        for h, blk in nl.items():
+            if all(s_ in blk for s_ in sets) and (outer is None or len(blk) > len(nl[outer])):
+                outer = h
+        key = "peek_indentation|flag#%d|reset-per-line" % n
+        if outer is None:
+            r.ok(key, how="flag is not set inside a loop")
+            continue
+        inside = [x for x in resets if x in nl[outer]]
+        if inside and all(any(x == s_ or b.dominates(x, s_) for x in inside) for s_ in sets):
+            r.ok(key, how="reset inside the line loop before any set")
+        else:
+            r.violate(key, "peek_indentation keeps a tab/space flag across the whitespace-only lines it skips (no reset to false inside the loop over lines before the flag is "
+                      "set): a blank line containing the other kind of whitespace makes the next real line fail the mixed-indentation check, although the same SCSS compiles",
+                      chk[0].loc())
+    r.floor("indentation flags", n, 2)
+    return r
+
+
+RULES = [rule_a, rule_b, rule_c, rule_d, rule_e]
